@@ -94,7 +94,9 @@ RULE = ("cases per op over histograms of every shape 1..4 (1-dim), 1..3 x 1..3 (
         "integer and dyadic-float contents of both signs (also all-zero and zero-integral ones) and dyadic edges: "
         "hscale (scale(); scale(other); scale(recompute=True)), nevents (get/set_nevents with and without "
         "n_out_of_range), add (equal edges, edges differing far above / far below the tolerance, different shapes, "
-        "weights incl. 1, -1, 0, fractions; default and zero tolerances; a non-histogram operand), iter (iter_bins, "
+        "weights incl. 1, -1, 0, fractions; default and zero tolerances; a non-histogram operand; edges that are a "
+        "proper prefix / extension of the other operand's along one axis - equal leading edges, more or fewer bins - for "
+        "every shape x axis x both operand orders), iter (iter_bins, "
         "iter_bins_with_edges, iter_cells with None, full, partial, empty and invalid index ranges; bins deeper or "
         "smaller than the edges), h2g (hist_to_graph: left/right/middle/invalid get_coordinate x make_value with 1..3 "
         "values x tuple/string/invalid field names of matching and non-matching count x scale None/True/number), graph "
@@ -446,7 +448,31 @@ def perturb_axes(rng, hc, how):
     return hc2
 
 
+def extend_axis(rng, hc, axis, extra):
+    """a histogram whose edges BEGIN with those of hc: `extra` more bins at the end of one axis (same leading
+    edges, new random contents of the new shape)"""
+    hc2 = copy.deepcopy(hc)
+    axes = axes_of(hc2)
+    for _ in range(extra):
+        axes[axis].append(enc(q(axes[axis][-1]) + (rng.randint(1, 3) if hc["ekind"] == "int" else F(rng.randint(1, 10), 4))))
+    hc2["bins"] = gen_bins(rng, shape_of(hc2), hc["kind"], "any")
+    return hc2
+
+
+def add_prefix_case(rng, shape, axis, order, extra=1):
+    """add of two histograms one of whose edges are a proper prefix of the other's along one axis (equal leading
+    edges, different numbers of bins): order 'ext' = the other histogram has the extra bins, 'pre' = self has them"""
+    small = gen_hist(rng, shape)
+    small.pop("econt", None)
+    big = extend_axis(rng, small, axis, extra)
+    a, b = (small, big) if order == "ext" else (big, small)
+    return {"op": "add", "a": a, "b": b, "w": rng.choice(["1", "1", "-1", "2", "1/2"]), "wkind": rng.choice(["int", "float"]),
+            "tol": rng.choice([None, None, ["0", "0"], ["1/1024", "0"]]), "rel": order}
+
+
 def add_case(rng, shape):
+    if rng.random() < 0.2:
+        return add_prefix_case(rng, shape, rng.randrange(len(shape)), rng.choice(["ext", "pre"]), rng.randint(1, 2))
     a = gen_hist(rng, shape)
     b = gen_hist(rng, shape, ekind=a["ekind"])
     b["edges"] = copy.deepcopy(a["edges"])
@@ -727,6 +753,12 @@ def gen_cases(ctx):
                 cases.append(csv_case(rng, shape))
                 cases.append(csv_case(rng, shape))
                 cases.append(csv_case(rng, shape))
+    # add with edges that are a proper prefix / extension of the other's: every shape x axis x both orders
+    for shape in SHAPES:
+        for axis in range(len(shape)):
+            for order in ("ext", "pre"):
+                for extra in ((1, 2) if thorough else (1,)):
+                    cases.append(add_prefix_case(rng, shape, axis, order, extra))
     for _ in range(200 if thorough else 10):
         cases.append(hscale_case(rng, zero_integral_hist(rng), True))
         cases.append(hscale_case(rng, gen_hist(rng, rng.choice(SHAPES), pattern="zero"), True))
@@ -1428,7 +1460,7 @@ def oracle(case, res):
             return "add modified an operand"
         if rel == "nothist":
             return None if res.get("e") == "LenaTypeError" else f"add(5) must raise LenaTypeError, got {res}"
-        if rel == "shape":
+        if rel in ("shape", "ext", "pre"):
             return None if res.get("e") == "LenaValueError" else \
                 f"add of histograms with {shape_of(a)} and {shape_of(b)} bins must raise LenaValueError, got {res.get('e', 'a result')}"
         tol = case["tol"]
